@@ -387,7 +387,7 @@ def run(tier, replay_path=None):
     phases = res.cov.setdefault("phase_seconds", {})
     t0 = time.time()
     # S
-    cfgs = ["MC_BrieQ22.cfg", "MC_BrieQ31.cfg", "MC_BrieL.cfg"] + ([] if q else ["MC_BrieT31.cfg", "MC_BrieT32.cfg", "MC_BrieT22.cfg"])
+    cfgs = ["MC_BrieQ22.cfg", "MC_BrieQ31.cfg", "MC_BrieL.cfg"] + ([] if q else ["MC_BrieM22.cfg", "MC_BrieT31.cfg", "MC_BrieT32.cfg", "MC_BrieT22.cfg"])
     if os.environ.get("VERIF_SKIP_MC"):      # developer aid for mutation experiments on a scratch copy (the model does not
         cfgs = []                            # depend on the repository); MANIFEST commands never set it
     for cfg in cfgs:
